@@ -269,4 +269,5 @@ def instances(tier):
     out.append(trace_bounded_instance())
     from .common import lemma_instance
     out.append(lemma_instance('C02', 'em', 'lemma:em-monotonicity-from-the-expected-complete-data-log-likelihood'))
+    out.append(lemma_instance('C02', 'gauss_mstep', 'lemma:gaussian-m-step-maximises-the-expected-complete-data-log-likelihood'))
     return out
